@@ -739,14 +739,19 @@ impl Optimizer {
                 let left_vars = self.collect_output_variables(&join.left);
                 let right_vars = self.collect_output_variables(&join.right);
 
-                let uses_left = predicate_vars.iter().any(|v| left_vars.contains(v));
-                let uses_right = predicate_vars.iter().any(|v| right_vars.contains(v));
+                // A side can take the predicate only if it binds every variable the
+                // predicate reads; "uses nothing of the other side" is not enough when a
+                // variable is bound by neither (or by an operator this analysis cannot see).
+                let only_left =
+                    !predicate_vars.is_empty() && predicate_vars.is_subset(&left_vars);
+                let only_right =
+                    !predicate_vars.is_empty() && predicate_vars.is_subset(&right_vars);
 
-                if uses_left && !uses_right {
+                if only_left && !only_right {
                     // Push to left side
                     join.left = Box::new(self.try_push_filter_into(predicate, *join.left));
                     LogicalOperator::Join(join)
-                } else if uses_right && !uses_left {
+                } else if only_right && !only_left {
                     // Push to right side
                     join.right = Box::new(self.try_push_filter_into(predicate, *join.right));
                     LogicalOperator::Join(join)
@@ -791,9 +796,15 @@ impl Optimizer {
         match op {
             LogicalOperator::NodeScan(scan) => {
                 vars.insert(scan.variable.clone());
+                if let Some(input) = &scan.input {
+                    Self::collect_output_variables_recursive(input, vars);
+                }
             }
             LogicalOperator::EdgeScan(scan) => {
                 vars.insert(scan.variable.clone());
+                if let Some(input) = &scan.input {
+                    Self::collect_output_variables_recursive(input, vars);
+                }
             }
             LogicalOperator::Expand(expand) => {
                 vars.insert(expand.to_variable.clone());
